@@ -4,7 +4,8 @@
 //!   realised as real directories (files created in the requested order, other files, a second
 //!   `immutable` directory, files beyond the beacon, perturbed files) and the real
 //!   `CardanoImmutableDigester` (+ `JsonImmutableFileDigestCacheProvider`) is run through the real
-//!   `CardanoDatabaseSignableBuilder::compute_protocol_message` along the case's history.
+//!   `CardanoDatabaseSignableBuilder::compute_protocol_message` / `compute_digests_for_range` (both
+//!   read and write the same cache) along the case's history.
 //! `--mode random` : seeded random nodes (bigger databases, partial trios, random layouts,
 //!   histories and perturbations).
 //! `--mode confirm`: prints the reproduction of the known finding (second `immutable` directory).
@@ -74,8 +75,26 @@ struct Node {
     decoy: String,
     entry: String,
     order: String,
-    hist: Vec<(u64, bool)>,
+    hist: Vec<Step>,
     pred: Vec<(bool, Vec<u64>)>,
+}
+
+/// one computation of a history: `compute_merkle_tree` at beacon `hi` (op "tree") or
+/// `compute_digests_for_range(lo..=hi)` (op "range"), with or without the node's digest cache
+#[derive(Clone)]
+struct Step {
+    op: &'static str,
+    lo: u64,
+    hi: u64,
+    cache: bool,
+}
+
+fn tree(b: u64, cache: bool) -> Step {
+    Step { op: "tree", lo: 0, hi: b, cache }
+}
+
+fn range(lo: u64, hi: u64, cache: bool) -> Step {
+    Step { op: "range", lo, hi, cache }
 }
 
 fn node_of_case(c: &Value) -> Node {
@@ -88,7 +107,17 @@ fn node_of_case(c: &Value) -> Node {
         decoy: s(&c["decoy"]),
         entry: s(&c["entry"]),
         order: s(&c["order"]),
-        hist: c["hist"].as_array().unwrap().iter().map(|h| (h["beacon"].as_u64().unwrap(), h["cache"].as_bool().unwrap())).collect(),
+        hist: c["hist"]
+            .as_array()
+            .unwrap()
+            .iter()
+            .map(|h| Step {
+                op: if h["op"] == "range" { "range" } else { "tree" },
+                lo: h["lo"].as_u64().unwrap(),
+                hi: h["hi"].as_u64().unwrap(),
+                cache: h["cache"].as_bool().unwrap(),
+            })
+            .collect(),
         pred: c["pred"]
             .as_array()
             .unwrap()
@@ -171,8 +200,8 @@ fn build_dir(db: &Path, node: &Node, seed: u64, case_ix: u64, plan: &DecoyPlan) 
 }
 
 /// the property's view of the node: names and content ids of the files `<db>/immutable/<n>.<ext>`
-/// with n <= beacon -- recomputed from the real directory
-fn covered(db: &Path, beacon: u64, int: &mut Interner) -> Value {
+/// with lo <= n <= beacon -- recomputed from the real directory
+fn covered(db: &Path, lo: u64, beacon: u64, int: &mut Interner) -> Value {
     let dir = db.join("immutable");
     let mut v: Vec<(u64, String, u64)> = vec![];
     for name in readdir_order(&dir) {
@@ -181,7 +210,7 @@ fn covered(db: &Path, beacon: u64, int: &mut Interner) -> Value {
             continue;
         }
         if let Some((num, _)) = parse_immutable_name(&name) {
-            if num <= beacon {
+            if lo <= num && num <= beacon {
                 v.push((num, name, int.id_of_file(&p)));
             }
         }
@@ -213,6 +242,7 @@ struct Runner {
     err: u64,
     mismatches: u64,
     panics: u64,
+    reuse: Option<(String, PathBuf, Option<String>)>,
 }
 
 impl Runner {
@@ -220,6 +250,22 @@ impl Runner {
         let digests: Vec<String> = cids.iter().map(|c| sha256_hex(&content(self.seed, *c))).collect();
         let t: MKTree<MKTreeStoreInMemory> = MKTree::new(&digests).unwrap();
         t.compute_root().unwrap().to_hex()
+    }
+
+    /// `compute_digests_for_range(lo..=hi)` on the real code: the (file name, digest) entries in order
+    fn compute_range(&self, dirpath: &Path, lo: u64, hi: u64, cache_file: Option<&Path>) -> Guarded<Result<Vec<(String, String)>, String>> {
+        let provider: Option<Arc<dyn ImmutableFileDigestCacheProvider>> =
+            cache_file.map(|p| Arc::new(JsonImmutableFileDigestCacheProvider::new(p)) as Arc<dyn ImmutableFileDigestCacheProvider>);
+        let digester = CardanoImmutableDigester::new(provider, discard_logger());
+        let dirpath = dirpath.to_path_buf();
+        guarded(|| {
+            self.rt.block_on(async move {
+                match digester.compute_digests_for_range(&dirpath, &(lo..=hi)).await {
+                    Ok(d) => Ok(d.entries.into_iter().map(|(f, h)| (f.filename, h)).collect()),
+                    Err(e) => Err(format!("{e:#}")),
+                }
+            })
+        })
     }
 
     /// one digest computation on the real code; `via`: "signable" | "digester"
@@ -249,19 +295,50 @@ impl Runner {
     }
 
     fn run_node(&mut self, work: &Path, case_ix: u64, node: &Node, plan: &DecoyPlan) -> bool {
-        let base = work.join(format!("n{case_ix}"));
-        let db = base.join("db");
-        let Some(decoy_parent) = build_dir(&db, node, self.seed, case_ix, plan) else {
-            return false; // this file system offers no way to realise the requested readdir order
+        // consecutive nodes with the same disk share the directory (computations never write below
+        // <db>); every node starts with its own empty cache
+        let layout = format!("{:?}|{:?}|{}|{}|{}", node.imm, node.other, node.bad, node.decoy, if node.order.starts_with("shuffle") { format!("{}{case_ix}", node.order) } else { node.order.clone() });
+        let (base, decoy_parent) = match &self.reuse {
+            Some((l, b, d)) if *l == layout => (b.clone(), d.clone()),
+            _ => {
+                if let Some((_, b, _)) = self.reuse.take() {
+                    let _ = std::fs::remove_dir_all(&b);
+                }
+                let base = work.join(format!("n{case_ix}"));
+                let Some(decoy_parent) = build_dir(&base.join("db"), node, self.seed, case_ix, plan) else {
+                    return false; // this file system offers no way to realise the requested readdir order
+                };
+                self.reuse = Some((layout, base.clone(), decoy_parent.clone()));
+                (base, decoy_parent)
+            }
         };
+        let db = base.join("db");
         let cache_file = base.join("digest-cache.json");
+        let _ = std::fs::remove_file(&cache_file);
         let dirpath = if node.entry == "immdir" { db.join("immutable") } else { db.clone() };
         let decoy = observed_decoy(&db, &decoy_parent);
-        for (step, (beacon, use_cache)) in node.hist.iter().enumerate() {
-            let routes: &[&str] = if *use_cache { &["signable"] } else { &["signable", "digester"] };
+        for (step, st) in node.hist.iter().enumerate() {
+            let (beacon, use_cache) = (&st.hi, &st.cache);
+            let routes: &[&str] = if st.op == "range" { &["range"] } else if *use_cache { &["signable"] } else { &["signable", "digester"] };
             for via in routes {
-                let cov = covered(&db, *beacon, &mut self.int);
-                let r = self.compute(&dirpath, *beacon, use_cache.then_some(cache_file.as_path()), via);
+                let cov = covered(&db, st.lo, *beacon, &mut self.int);
+                let cache_arg = use_cache.then_some(cache_file.as_path());
+                // the value computed: the Merkle root, or (range) a digest of the returned
+                // (file name, digest) entries; `digests` keeps the entries themselves
+                let mut digests: Vec<String> = vec![];
+                let r = if st.op == "range" {
+                    match self.compute_range(&dirpath, st.lo, st.hi, cache_arg) {
+                        Guarded::Done(Ok(entries)) => {
+                            let joined: String = entries.iter().map(|(n, d)| format!("{n}={d};")).collect();
+                            digests = entries.into_iter().map(|e| e.1).collect();
+                            Guarded::Done(Ok(sha256_hex(joined.as_bytes())))
+                        }
+                        Guarded::Done(Err(e)) => Guarded::Done(Err(e)),
+                        Guarded::Panic(m) => Guarded::Panic(m),
+                    }
+                } else {
+                    self.compute(&dirpath, *beacon, cache_arg, via)
+                };
                 let (res, root, err) = match r {
                     Guarded::Done(Ok(root)) => ("ok", root, String::new()),
                     Guarded::Done(Err(e)) => ("err", String::new(), e),
@@ -272,7 +349,13 @@ impl Runner {
                 };
                 let (pred_ok, pred_match) = match node.pred.get(step) {
                     Some((pok, cids)) => {
-                        let m = if *pok { res == "ok" && root == self.predicted_root(cids) } else { res != "ok" };
+                        let m = if !*pok {
+                            res != "ok"
+                        } else if st.op == "range" {
+                            res == "ok" && digests == cids.iter().map(|c| sha256_hex(&content(self.seed, *c))).collect::<Vec<_>>()
+                        } else {
+                            res == "ok" && root == self.predicted_root(cids)
+                        };
                         (json!(pok), m)
                     }
                     None => (json!("none"), true),
@@ -289,14 +372,13 @@ impl Runner {
                 err_short = err_short.replace(base.to_string_lossy().as_ref(), "<node>");
                 self.trace.emit(json!({
                     "ev": "Digest", "case": case_ix, "step": step + 1, "kind": node.kind, "via": via,
-                    "beacon": beacon, "cache": use_cache, "covered": cov,
+                    "op": st.op, "lo": st.lo, "beacon": beacon, "cache": use_cache, "covered": cov,
                     "res": res, "root": root, "err": err_short,
                     "decoy": decoy, "entry": node.entry, "other": node.other, "bad": node.bad, "order": node.order,
                     "pred_ok": pred_ok, "pred_match": pred_match,
                 }));
             }
         }
-        let _ = std::fs::remove_dir_all(&base);
         true
     }
 }
@@ -318,9 +400,19 @@ fn random_node(r: &mut ChaCha20Rng) -> Node {
     Node { kind: "random".into(), imm, other: vec![], bad: false, decoy: "none".into(), entry: "db".into(), order: "asc".into(), hist: vec![], pred: vec![] }
 }
 
-fn random_hist(r: &mut ChaCha20Rng, last: u64, cache_only: bool) -> Vec<(u64, bool)> {
+fn random_hist(r: &mut ChaCha20Rng, last: u64, cache_only: bool) -> Vec<Step> {
     let n = 1 + below(r, 4);
-    (0..n).map(|_| (below(r, last + 2), cache_only || below(r, 2) == 0)).collect()
+    (0..n)
+        .map(|_| {
+            let cache = cache_only || below(r, 2) == 0;
+            if below(r, 2) == 0 {
+                tree(below(r, last + 2), cache)
+            } else {
+                let lo = below(r, last + 2);
+                range(lo, lo + below(r, last + 2 - lo), cache)
+            }
+        })
+        .collect()
 }
 
 fn main() {
@@ -345,6 +437,7 @@ fn main() {
         err: 0,
         mismatches: 0,
         panics: 0,
+        reuse: None,
     };
     let mut nodes = 0u64;
     let mut unrealised = 0u64;
@@ -368,7 +461,12 @@ fn main() {
             let mut variants: Vec<Node> = vec![];
             // the plain node, without cache, every beacon
             let mut n0 = base.clone();
-            n0.hist = (0..=last + 1).map(|b| (b, false)).collect();
+            n0.hist = (0..=last + 1).map(|b| tree(b, false)).collect();
+            for lo in 0..=last {
+                for hi in lo..=last {
+                    n0.hist.push(range(lo, hi, false));
+                }
+            }
             variants.push(n0);
             // layout variants
             for _ in 0..2 {
@@ -389,7 +487,7 @@ fn main() {
             let mut v = base.clone();
             v.imm.push((last + 1, "chunk".into(), 11));
             v.imm.push((last + 2, "primary".into(), 12));
-            v.hist = (0..=last).map(|b| (b, false)).collect();
+            v.hist = (0..=last).map(|b| tree(b, false)).collect();
             variants.push(v);
             // perturbations
             for _ in 0..3 {
@@ -403,7 +501,8 @@ fn main() {
                     _ => v.imm[k].2 = if v.imm[k].2 == 0 { 400 } else { (1 + below(&mut r, 4)) * 100 + v.imm[k].2 },
                 }
                 v.kind = "random-perturb".into();
-                v.hist = (0..=last).map(|b| (b, false)).collect();
+                v.hist = (0..=last).map(|b| tree(b, false)).collect();
+                v.hist.push(range(below(&mut r, last + 1), last, false));
                 variants.push(v);
             }
             for v in variants {
